@@ -63,6 +63,13 @@ func (w *ifaceWorld) builder(b string) *mocker.Builder {
 	return w.b[b]
 }
 
+// ifaceState: per-mock state a callback hangs on its context; cyclic on purpose
+type ifaceState struct {
+	Ctx   *mocker.IContext
+	Self  *ifaceState
+	Calls int
+}
+
 var churnSink [][]byte
 
 func churn() {
@@ -105,7 +112,17 @@ func (w *ifaceWorld) Do(st Step) string {
 			w.hm[kM] = h
 			switch st.Str("kind") {
 			case "apply":
-				h.Apply(func(ctx *mocker.IContext, a int) int { return base + 7 })
+				// the callback keeps per-mock state in ctx.Data, with a pointer back to the context (what a log line renders when it
+				// prints the receiver must not depend on being able to walk it - C19)
+				h.Apply(func(ctx *mocker.IContext, a int) int {
+					if ctx.Data == nil {
+						st := &ifaceState{Ctx: ctx}
+						st.Self = st
+						ctx.Data = st
+					}
+					ctx.Data.(*ifaceState).Calls++
+					return base + 7
+				})
 			case "stub":
 				h.As(func(ctx *mocker.IContext, a int) int { return 0 }).Return(base + 7)
 			case "seq": // the first call receives base+7, every later one base+9
